@@ -350,8 +350,25 @@ TRY_BRANCH_RESULT = "<std::result::Result as std::ops::Try>::branch"
 FROM_RESIDUAL_RESULT = "<std::result::Result as std::ops::FromResidual>::from_residual"
 
 
+_SIMP = {}
+
+
 def simplify(e):
-    """Fold projections out of known aggregates: (agg{..} as V).k -> field k."""
+    """Fold projections out of known aggregates: (agg{..} as V).k -> field k.  Results are remembered by object identity
+    (expressions are immutable tuples that are shared between the rows of a decision table)."""
+    key = id(e)
+    hit = _SIMP.get(key)
+    if hit is not None and hit[0] is e:
+        return hit[1]
+    r = _simplify(e)
+    if len(_SIMP) > 3000000:
+        _SIMP.clear()
+    _SIMP[key] = (e, r)
+    _SIMP[id(r)] = (r, r)
+    return r
+
+
+def _simplify(e):
     k = e[0]
     if k == 'field':
         b = simplify(e[1])
